@@ -15,6 +15,7 @@
   (command_executor.rs:201-225 as transcribed by `workerPut`), leaving a charged id without a held key
   (last `example`).  The sum `used = Σ weights` and the absence of duplicates survive even that.
 -/
+import CachedProofs.LayerB.Theorems
 import CachedProofs.Lemmas.Inv
 
 namespace Cached
